@@ -64,6 +64,11 @@ Proof.
     + inversion St; subst; cbn; rewrite F, <- app_assoc; reflexivity.
   - destruct (_ && _) in St; [|discriminate]. inversion St; subst; cbn. exact F.
   - destruct (_ && _) in St; [|discriminate]. inversion St; subst; cbn. exact F.
+  - destruct (_ && _) in St; [|discriminate].
+    destruct (rx s); [destruct (full _ _)|..]; inversion St; subst; cbn; try exact F.
+    rewrite F, app_assoc. reflexivity.
+  - destruct (_ && _) in St; [|discriminate]. inversion St; subst; cbn. exact F.
+  - destruct (_ && _) in St; [|discriminate]. inversion St; subst; cbn. exact F.
   - destruct (rx s); try discriminate. destruct (_ || _) in St; [|discriminate].
     inversion St; subst; cbn. exact F.
   - destruct (rx s); try discriminate; inversion St; subst; cbn; exact F.
@@ -79,6 +84,7 @@ Definition obs_recv (o : obs) : list item :=
 Definition obs_sent (s : state) (l : label) (o : obs) : list item :=
   match l, o with
   | Poll t, OPoll rs _ _ => snd (apply_results (cur (tasks s t)) rs)
+  | TrySend _ x, OTry SSent _ => [x]
   | _, _ => []
   end.
 
@@ -95,6 +101,12 @@ Proof.
     destruct (buf s) as [|v b'] eqn:Bf.
     + destruct (Nat.eqb _ 0); inversion St; subst; cbn; rewrite !app_nil_r; split; reflexivity.
     + inversion St; subst; cbn; rewrite !app_nil_r; split; reflexivity.
+  - destruct (_ && _) in St; [|discriminate]. inversion St; subst; cbn.
+    rewrite !app_nil_r; split; reflexivity.
+  - destruct (_ && _) in St; [|discriminate]. inversion St; subst; cbn.
+    rewrite !app_nil_r; split; reflexivity.
+  - destruct (_ && _) in St; [|discriminate].
+    destruct (rx s); [destruct (full _ _)|..]; inversion St; subst; cbn; rewrite ?app_nil_r; split; reflexivity.
   - destruct (_ && _) in St; [|discriminate]. inversion St; subst; cbn.
     rewrite !app_nil_r; split; reflexivity.
   - destruct (_ && _) in St; [|discriminate]. inversion St; subst; cbn.
@@ -127,6 +139,10 @@ Proof.
     inversion St; subst; cbn. tauto.
   - destruct (_ && _) in St; [|discriminate].
     destruct (buf s); [destruct (Nat.eqb _ 0)|]; inversion St; subst; cbn; tauto.
+  - destruct (_ && _) in St; [|discriminate]. inversion St; subst; cbn. tauto.
+  - destruct (_ && _) in St; [|discriminate]. inversion St; subst; cbn. tauto.
+  - destruct (_ && _) in St; [|discriminate].
+    destruct (rx s) eqn:E; [destruct (full _ _)|..]; inversion St; subst; cbn; rewrite ?E; tauto.
   - destruct (_ && _) in St; [|discriminate]. inversion St; subst; cbn. tauto.
   - destruct (_ && _) in St; [|discriminate]. inversion St; subst; cbn. tauto.
   - destruct (rx s) eqn:E; try discriminate. destruct (_ || _) in St; [|discriminate].
@@ -198,7 +214,27 @@ Proof.
     split; intros; discriminate.
   - destruct (_ && _) in St; [|discriminate]. inversion St; subst.
     split; intros; discriminate.
+  - destruct (_ && _) in St; [|discriminate].
+    destruct (rx s); [destruct (full _ _)|..]; inversion St; subst; split; intros; discriminate.
+  - destruct (_ && _) in St; [|discriminate]. inversion St; subst.
+    split; intros; discriminate.
+  - destruct (_ && _) in St; [|discriminate]. inversion St; subst.
+    split; intros; discriminate.
   - destruct (rx s); try discriminate. destruct (_ || _) in St; [|discriminate].
     inversion St; subst. split; intros; discriminate.
   - destruct (rx s); try discriminate; inversion St; subst; split; intros; discriminate.
+Qed.
+
+(* try_send errs with Closed iff the receiver was closed or dropped earlier in the trace *)
+Lemma try_send_closure : forall p c progs tr s t x s' r ws,
+  reachable p (init c progs) tr s -> step p s (TrySend t x) = Some (s', OTry r ws) ->
+  (r = SClosed <-> existsb is_close tr = true).
+Proof.
+  intros p c progs tr s t x s' r ws R St.
+  pose proof (reachable_rx _ _ _ _ _ R) as RX.
+  cbn [step] in St. destruct (_ && _) in St; [|discriminate].
+  destruct (rx s) eqn:E; [destruct (full _ _)|..]; inversion St; subst;
+    destruct (existsb is_close tr); split; intros H; try discriminate; try reflexivity;
+    exfalso; destruct RX as [R1 R2]; try (specialize (R1 eq_refl); discriminate);
+    try (specialize (R2 eq_refl); discriminate).
 Qed.
